@@ -56,10 +56,10 @@ Proof.
     + reflexivity.
     + destruct p; [destruct exact|]; reflexivity.
     + cbn [simp simp_atom]. destruct (multi_repo_cases c (QRepoTbl want) (fun i _ => nth i want false)) as [E|[E|E]]; rewrite E; reflexivity.
-    + destruct names; [reflexivity|]. cbn [simp simp_atom].
-      destruct (multi_repo_cases c (QRepoSet (l :: names)) (fun _ r => mem_runes (r_name r) (l :: names))) as [E|[E|E]]; rewrite E; reflexivity.
-    + destruct ids; [reflexivity|]. cbn [simp simp_atom].
-      destruct (multi_repo_cases c (QRepoIDs (n :: ids)) (fun _ r => memN (r_id r) (n :: ids))) as [E|[E|E]]; rewrite E; reflexivity.
+    + cbn [simp simp_atom].
+      destruct (multi_repo_cases c (QRepoSet names) (fun _ r => mem_runes (r_name r) names)) as [E|[E|E]]; rewrite E; reflexivity.
+    + cbn [simp simp_atom].
+      destruct (multi_repo_cases c (QRepoIDs ids) (fun _ r => memN (r_id r) ids)) as [E|[E|E]]; rewrite E; reflexivity.
     + cbn [simp simp_atom]. destruct (multi_repo_cases c (QRawConfig m) (fun _ r => (N.land m (r_rawmask r) =? m)%N)) as [E|[E|E]]; rewrite E; reflexivity.
     + cbn [simp simp_atom]. destruct (existsb _ (c_repos c)); [|reflexivity]. destruct (forallb _ l); reflexivity.
     + cbn [simp simp_atom]. destruct (lang_code c name); reflexivity.
